@@ -460,7 +460,7 @@ GEN = ['gen_setcrew.json', 'gen_treeclear.json', 'gen_hashclear.json', 'gen_mult
        'gen_mempooldata.json', 'gen_mempoolswap.json',
        # round 8: move constructors end to end (a member's move constructor is followed into its own translation), HashMultiMap::Swap
        'gen_treemove.json', 'gen_hashmove.json', 'gen_multiswap.json', 'gen_tablecrew.json', 'gen_tablemove.json',
-       'gen_arraydata.json',
+       'gen_arraydata.json', 'gen_arraydata_ic.json',   # last round: the internal-capacity instantiation (ArrayIntCap<4, int>)
        # round 10: HashMultiMap(HashMultiMap&&) end to end; the HashSet member object inside HashMap inside HashMultiMap is one
        # packed value (coq/Pack.v: packing only) moved by the generated Gen_HashSet3.MoveCtor
        'gen_valuecrew.json', 'gen_hashmapmove.json', 'gen_multimove.json']
